@@ -446,5 +446,8 @@ PROPS["C01"]["rules"] = PROPS["C01"]["rules"] + [rules_limits.rule_dd_length_non
 PROPS["C08"]["rules"] = PROPS["C08"]["rules"] + [rules_idioms.rule_nullable_string_guarded]
 PROPS["C08"]["explanation"] += " (NULLNAME) every string read of a Vgroup's name or class (NULL until set) sits under a NULL test of that field."
 
+PROPS["C12"]["rules"] = PROPS["C12"]["rules"] + [rules_dd.rule_duplicate_refused_first]
+PROPS["C12"]["explanation"] += " (DUPFIRST) HTPcreate looks an existing tag/ref up and refuses it before it claims and writes a descriptor."
+
 NOT_APPLICABLE = {}
 
